@@ -74,6 +74,15 @@ def _apply_phase(rig, ph):
 
         rig.net.fates = once
         return
+    if ph == "user-new-address":
+        # the spa got another address (new DHCP lease) and the user enters it: same identifier, new address
+        peer.set_mode("healthy")
+        new = ("10.0.0.77", SPA_ADDR_[1])
+        rig.net.peers.pop(tuple(peer.addr), None)
+        rig.net.add_peer(new, peer)
+        man = rig.man
+        rig.spawn(man.async_set_spa_info(new[0], man._spa_identifier, man._spa_name), name="HARNESS:user-call")
+        return
     if ph in ("user-reset", "user-set-spa-info"):
         # the network is healthy again and the user asks for a fresh start (the documented way out of a terminal error
         # state such as ERROR_SPA_NOT_FOUND)
@@ -298,6 +307,10 @@ def run(ctx):
             for d in ((30.0, 130.0, 400.0) if not ctx.quick else (30.0, 400.0)):
                 for call in ("user-reset", "user-set-spa-info"):
                     scripts.append((sn, ((ph, d), (call, 1.0))))
+    # the spa moves to another address and the user enters it (directly, and after an outage)
+    for sn in STARTS:
+        scripts.append((sn, (("user-new-address", 1.0),)))
+        scripts.append((sn, (("blackout", 130.0), ("user-new-address", 1.0))))
     if not ctx.quick:
         triples = [((a, 30.0), (b, 130.0), (c, 30.0)) for a in PHASES for b in PHASES for c in PHASES if a != b and b != c]
         for s in triples:
